@@ -168,6 +168,33 @@ def run(ctx) -> None:
                     reqs.append({"verb": "format", "items": its, "format": fmt, "quiet": quiet, "rel": rel})
                     expect.append({"out": out, "exit": 1 if its else 0})
                     meta.append(("format", its, (fmt, quiet)))
+            # ---- the property itself, on the implementation's own functions (no model involved): stripping the SGR
+            # escapes from the coloured rendering gives the plain rendering, item by item and in order
+            import re as _re
+
+            sgr = _re.compile("\x1b\\[[0-9;]*m")
+            seen_viol = 0
+            for kind, its, _param in [m for m in meta if m[0] == "format" and m[2][0] == "plain"]:
+                sp = Settings(quiet=True)
+                sp.color = False
+                sc = Settings(quiet=True)
+                sc.color = True
+                plain = format_errors(to_errors(its), sp)
+                colour = format_errors(to_errors(its), sc)
+                res.bump("colour_vs_plain_in_process")
+                if sgr.sub("", colour) != sgr.sub("", plain) and seen_viol < 3:
+                    seen_viol += 1
+                    bad = next((it for it in its if sgr.sub("", format_errors(to_errors([it]), sc)) != sgr.sub("", format_errors(to_errors([it]), sp))), its)
+                    res.violate(
+                        "the coloured rendering is not the plain rendering plus escape sequences",
+                        {"kind": "colour-changes-text"},
+                        {
+                            "items": [bad] if isinstance(bad, dict) else bad,
+                            "plain": format_errors(to_errors([bad] if isinstance(bad, dict) else bad), sp),
+                            "colour": format_errors(to_errors([bad] if isinstance(bad, dict) else bad), sc),
+                            "how": "build refurb.error.Error subclasses with the given prefix/code/line/column/msg/filename and call refurb.main.format_errors twice: Settings(quiet=True) with color False and True; strip \\x1b[...m",
+                        },
+                    )
         if ctx.driver.available():
             answers = ctx.driver.batch(reqs)
             for a, e, m in zip(answers, expect, meta):
